@@ -201,12 +201,26 @@ class Actors:
         self.shadow[i] = sh
         return cls
 
+    def new(self, cls, spec):
+        """Instances of a class that is marked abstract (non-empty
+        __abstractmethods__: think of an ABC deriving from a builtin, or of
+        abc.update_abstractmethods() after a mix-in lost a method) exist
+        all the same; they are ordinary components / processors."""
+        if not spec.get('abstract'):
+            return cls()
+        cls.__abstractmethods__ = frozenset()
+        try:
+            return cls()
+        finally:
+            cls.__abstractmethods__ = frozenset({'must_override'})
+            self.interp.probes['instance_of_abstract_class'] += 1
+
     def inst(self, i):
         if i not in self.insts:
             ci = self.config['insts'][i]
             if ci not in self.classes:
                 return None
-            o = self.classes[ci]()
+            o = self.new(self.classes[ci], self.config['classes'][ci])
             o._label = f'c{i}'
             kernel.label(o, o._label)
             self.insts[i] = o
@@ -214,7 +228,8 @@ class Actors:
 
     def pinst(self, i):
         if i not in self.pinsts:
-            o = self.pclasses[self.config['pinsts'][i]]()
+            pc = self.config['pinsts'][i]
+            o = self.new(self.pclasses[pc], self.config['pclasses'][pc])
             o._label = f'p{i}'
             kernel.label(o, o._label)
             self.pinsts[i] = o
@@ -561,6 +576,23 @@ class Interp:
                for g in self.fifo):
             self.probes['forgotten_with_pending_callbacks'] += 1
         self.probes['component_forgotten'] += 1
+
+    def op_forget_proc(self, op, start):
+        """The program keeps no reference of its own to a processor that
+        is in no world any more (only the queue of postponed callbacks, if
+        anything, still refers to it)."""
+        i = op[1]
+        if (self.depth or i not in self.actors.pinsts
+                or any(j == i for q, j in self.procs)
+                or i in getattr(self, 'side', {}).values()):
+            return 'skip'
+        del self.actors.pinsts[i]
+        self.reg_p.discard(i)
+        self.inst_prio.pop(i, None)
+        if any(g[0] == 'grp' and any(e[1] == f'p{i}' for e in g[1])
+               for g in self.fifo):
+            self.probes['processor_forgotten_with_pending_callbacks'] += 1
+        self.probes['processor_forgotten'] += 1
 
     def op_unregister(self, op, start):
         """remove_handler by hand on an attached component: it stops
@@ -1655,7 +1687,7 @@ WEIGHTS = {
     'C07': dict(create=1, create_id=.2, add=.6, add_replace=.2, remove=.4,
                 delete=.3, delete_now=.2, touch=.1, process=3.5, clear=.4,
                 disable=.6, enable=.9, probe=.6, add_proc=5, remove_proc=1.6,
-                defclass=0, side_add=.5),
+                defclass=0, side_add=.5, forget_proc=.7),
 }
 
 
@@ -1715,6 +1747,8 @@ def gen_config(prop, rng):
             spec['ctrl'] = True
         if bases and prop in ('C01', 'C06') and rng.random() < .15:
             spec['late'] = True
+        if prop in ('C01', 'C06') and rng.random() < .05:
+            spec['abstract'] = True
         classes.append(spec)
     insts = []
     if ladder:
@@ -1741,6 +1775,8 @@ def gen_config(prop, rng):
         if prop != 'C02' and rng.random() < (.6 if prop == 'C07' else .3):
             deco = rng.choice(PDECOS[1:])
         pclasses.append({'bases': bases, 'prio': prio, 'deco': deco})
+        if prop in ('C06', 'C07') and rng.random() < .05:
+            pclasses[-1]['abstract'] = True
     pinsts = []
     for i in range(npc):
         pinsts += [i] * rng.choice([1, 2])
@@ -1973,6 +2009,9 @@ def gen_op(kind, sh, rng, cfg, state):
     if kind == 'remove_proc':
         return ['remove_proc', rng.choice([-1] + list(
             range(len(cfg['pclasses']))))]
+    if kind == 'forget_proc':
+        out = [i for i in range(len(cfg['pinsts'])) if i not in sh.procs]
+        return ['forget_proc', rng.choice(out)] if out else None
     if kind == 'defclass':
         late = [i for i, c in enumerate(cfg['classes'])
                 if c.get('late') and i not in sh.defined]
